@@ -193,6 +193,12 @@ def main():
             first = first or k
         return first if status_explained else None
 
+    # parts whose model describes the known finding itself (spec key `known_must_validate`): a
+    # run that fails only by a known finding must still be accepted event by event by the model
+    strict_parts = {p["name"] for p in spec["parts"] if p.get("known_must_validate")}
+    diverges += [r for r in results if r["fail"] and r["part"] in strict_parts
+                 and not r["drv"].get("validate_ok") and known_match(r)]
+
     if os.environ.get("VERIF_DUMP_FAILS"):
         # development aid: every failing run with its classification, one JSON object per line
         with open(os.environ["VERIF_DUMP_FAILS"], "a") as df:
